@@ -1,7 +1,8 @@
 (* C02 — every composite status follows from its parts (CNF, when, blocks, rule, file).
    Pinned statements only. *)
 From GV.Model Require Import SEval Wf.
-From GV.Proofs Require Import StatusProps EvalLaws FuelProps.
+From GV.Proofs Require Import StatusProps EvalLaws FuelProps TableProps.
+From GV.Generated Require Import EvalTables.
 
 (* a line of `or`-joined clauses, any number of alternatives, any clause evaluator *)
 Theorem C02_or_line : forall T (f : T -> M status) line s st recs s',
@@ -110,3 +111,10 @@ Theorem C02_fuel_monotone : forall re conv prog (n m : nat),
   (n <= m)%nat -> ev_le (evalN re conv prog n) (evalN re conv prog m).
 Proof. exact evalN_mono. Qed.
 Print Assumptions C02_fuel_monotone.
+
+(* Status::and of the model is the truth table obtained by interpreting the match arms of the Rust source
+   (rules/mod.rs; Generated/EvalTables.v is rewritten from the source on every run) *)
+Theorem C02_status_and_is_the_source_table : forall a b,
+  lookup3 (status_name a) (status_name b) src_status_and = Some (status_name (status_and a b)).
+Proof. exact status_and_is_the_source_table. Qed.
+Print Assumptions C02_status_and_is_the_source_table.
